@@ -5,7 +5,7 @@ from ..core import hx, unhx
 from .C04 import ParseCase
 from .C09 import planted
 
-THEOREMS = []
+THEOREMS = ['every_schedule_terminates', 'sends_end_with_done', 'terminal_received', 'documented_consumer', 'draining_consumer', 'unreadable_file_drains', 'schedule_independent']
 LEVEL = 'proof'
 RULE = ('inputs: valid, with one or several malformed lines, empty, failing reader, unreadable path x consumer policies {stop at first error, '
         'drain until Done} x scheduling-jitter seeds (thorough: race-detector build); non-trivial = input with an error or >= 2 records; '
